@@ -3,6 +3,7 @@ src/delta/parser.rs (parse, starts_declaration, 29 parse_* functions), src/delta
 src/delta/parser/parse_tree.rs (ParseTree::{empty, buffer, set_nodes_len}, ParseBuffer::*),
 src/delta/lexer/tokens.rs (the read-only accessors of the lexer's Tokens used by the cursor)."""
 import re
+import os
 from vlib import rules, rules_lexer as rl
 from vlib.rsparse import LostAnchor
 from units.delta_common import emit_nodes, tuple_pub
@@ -87,10 +88,10 @@ def expand_static_contracts(u):
     src = re.sub(r'PBFRAME0\((\w+)\)', lambda m: PBFRAME % ((m.group(1),) * 6), src)
     src = re.sub(r'PBFRAME\((\w+)\)', lambda m: (PBFRAME % ((m.group(1),) * 6)) + '\n\tdecls_same(*old(%s), *final(%s)),' % (m.group(1), m.group(1)), src)
     src = src.replace('NODES_PER_TOKEN()', str(K))
-    out = os.path.join(u.verif, '.work', 'u_parse_static.vc')
+    out = os.path.join(u.work, 'u_parse_static.vc')
     os.makedirs(os.path.dirname(out), exist_ok=True)
     open(out, 'w').write(src)
-    u.load_contracts('.work/u_parse_static.vc')
+    u.load_contracts(os.path.join(u.work_rel, 'u_parse_static.vc'))
 
 
 
@@ -232,9 +233,9 @@ def gen_parse_contracts(u):
             out.append('--- %s %d | %s' % (w, nth, anchor))
             out.append(text)
         out.append('')
-    path = os.path.join(u.verif, '.work', 'u_parse_generated.vc')
+    path = os.path.join(u.work, 'u_parse_generated.vc')
     open(path, 'w').write('\n'.join(out))
-    u.load_contracts('.work/u_parse_generated.vc')
+    u.load_contracts(os.path.join(u.work_rel, 'u_parse_generated.vc'))
 
 
 def build(u):
@@ -278,8 +279,8 @@ def build(u):
     u.raw('use ParseNode::UnpatchedListItem;\nuse BaseToken::EndOfSource;')
     import os as _os
     _sp = open(_os.path.join(u.verif, 'spec/u_parse_spec.rs')).read().replace('KKK', str(K))
-    open(_os.path.join(u.verif, '.work', 'u_parse_spec_k.rs'), 'w').write(_sp)
-    u.include('.work/u_parse_spec_k.rs', kind='spec')
+    open(_os.path.join(u.work, 'u_parse_spec_k.rs'), 'w').write(_sp)
+    u.include(_os.path.join(u.work_rel, 'u_parse_spec_k.rs'), kind='spec')
     u.include('spec/u_hdr_spec.rs', kind='spec')
     # ---- node buffer (real code)
     RB = [rules.r13_assert_eq, rules.r19_with_capacity, rules.r21_cmp_minmax, rules.r20_param_patterns, rules.r23_push_within_capacity('self.declarations')]
